@@ -55,16 +55,19 @@ def run_stream_once(ctx, st, binpath, ops, tag):
     if rc != 0 and len(impl) < len(ops):
         # the harness process died (a panic outside recover, os.Exit, deadlock): pad, and mark the first missing op
         impl = impl + ["crash"] + ["-"] * (len(ops) - len(impl) - 1)
-    rc2, err = core.driver_run("model", opsf, modf)
+    rc2, err = core.driver_run(st.get("model_mode", "model"), opsf, modf)
     model = read_lines(modf)
     if rc2 != 0:
         ctx.say("driver failed:", err[-2000:])
     with open(joinf, "w") as f:
         for o, i in zip(ops, impl):
             f.write(o + "\t" + i + "\n")
-    core.driver_run("verdict", joinf, verf)
-    verdict = read_lines(verf)
     n = len(ops)
+    if st.get("verdict_mode", "verdict"):
+        core.driver_run(st.get("verdict_mode", "verdict"), joinf, verf)
+        verdict = read_lines(verf)
+    else:
+        verdict = ["ok"] * n          # the property is decided by the history monitor (`post`), not line by line
     impl += ["<missing>"] * (n - len(impl))
     model += ["<missing>"] * (n - len(model))
     verdict += ["<missing>"] * (n - len(verdict))
@@ -167,12 +170,23 @@ def run_stream(ctx, prop, st, seeds):
                 if name not in [b0.split(" ")[0] for b0 in ctx.broken]:
                     ctx.broken.append(f"{name} first-disagreement: op `{o}` impl `{i}` model `{m}` (batch {tag})")
         if "post" in st:
-            for item in st["post"](ctx, ops, impl)[:2]:
-                total["fails"] += 1
+            nrep = 0
+            for item in st["post"](ctx, ops, impl):
                 if len(item) == 2:
                     case, why = list(item[0]), item[1]
                 else:
                     case, why = [item[0], item[1]], item[2]
+                kf = core.match_known(ctx.known, pid, "\n".join(case) + "\n=> " + why)
+                if kf is not None:
+                    ctx.known_hits.setdefault(kf["id"], kf)
+                    total["known"] = total.get("known", 0) + 1
+                    continue
+                total["fails"] += 1
+                nrep += 1
+                if nrep > 2:
+                    continue
+                if st.get("post_min"):
+                    case = st["post_min"](ctx, st, binpath, case, why)
                 im2, mo2, ve2 = run_stream_once(ctx, st, binpath, case, "rep")
                 p = write_replay(ctx, f"{st['name']}-{len(ctx.violations)}", dict(
                     kind="failing-input", stream=st["name"], pkg=st["pkg"], ops=case, impl=im2, model=mo2, verdict=ve2,
@@ -181,7 +195,8 @@ def run_stream(ctx, prop, st, seeds):
     cov = ctx.cov.setdefault("streams", {})
     cov[st["name"]] = dict(evaluations=total["evals"], distinct_nontrivial=len(total["distinct"]),
                            op_histogram=dict(total["ophist"]), outcome_histogram=dict(total["outhist"].most_common(40)),
-                           disagreements=total["diffs"], monitor_failures=total["fails"], samples=total["samples"])
+                           disagreements=total["diffs"], monitor_failures=total["fails"], known_finding_hits=total.get("known", 0),
+                           samples=total["samples"])
 
 
 def main_check(pid, tier, seed, replay=None):
@@ -296,6 +311,12 @@ def do_replay(ctx, prop, path):
     for o, i, m, v in zip(r["ops"], impl, model, verdict):
         ctx.say(f"{o}\n    impl:  {i}\n    model: {m}\n    verdict: {v}")
         bad = bad or v != "ok"
+    if "post" in st:
+        for item in st["post"](ctx, list(r["ops"]), impl):
+            case, why = (list(item[0]), item[1]) if len(item) == 2 else ([item[0], item[1]], item[2])
+            if core.match_known(ctx.known, ctx.pid, "\n".join(case) + "\n=> " + why) is None:
+                ctx.say("    monitor:", why)
+                bad = True
     if bad:
         ctx.say(f"VIOLATION property={ctx.pid} replay={path}")
         return 1
